@@ -848,8 +848,27 @@ def r6(ctx):
                         if not sub_:
                             break
                         e_ = inline(e_, sub_, depth=1)
-                    bns.append(U(e_).replace(" ", ""))
-        ok = len(bns) == 2 and any(f"0.5*self.eta{k}*self.V{k}**2" in b for b in bns) and any(f"0.5*(self.phi{k}*self.V{k}**2).sum(" in b for b in bns)
+                    bns.append(e_)
+
+        def has_term(e, wants):
+            """some sub-expression of e has the normal form of one of the wanted terms (factor order and spelling do not matter)"""
+            keys = []
+            for w_ in wants:
+                try:
+                    keys.append(Nn.n(parse_expr(w_)))
+                except AnalysisError:
+                    pass
+            for x in ast.walk(e):
+                if isinstance(x, (ast.BinOp, ast.Call)):
+                    try:
+                        if Nn.n(x) in keys:
+                            return True
+                    except AnalysisError:
+                        continue
+            return False
+        ok = len(bns) == 2 and any(has_term(b, [f"0.5*self.eta{k}*self.V{k}**2"]) for b in bns) \
+            and any(has_term(b, [f"0.5*(self.phi{k}*self.V{k}**2).sum({a_})" for a_ in ("", "0", "axis=0")]) for b in bns)
+        bns = [U(b).replace(" ", "") for b in bns]
         ctx.check("R6", f"{f.site()}::rates-use-own-block", ok, f"phi{k} rate uses eta{k} * V{k}^2 / 2, eta{k} rate uses sum(phi{k} * V{k}^2) / 2",
                   f"shrinkage rates are {bns}: they must use the squared parameters and the partner precision of block V{k} itself")
 
